@@ -1,6 +1,6 @@
 (** C18 — lemmas about Model/C18_Haplo.v *)
 From PV Require Import Lib.Common Model.C18_Haplo.
-From Coq Require Import Lia Arith.
+From Coq Require Import Lia Arith PrimFloat.
 Local Open Scope nat_scope.
 
 Lemma in_firstn {A} (x : A) n l : In x (firstn n l) -> In x l.
@@ -259,3 +259,713 @@ Lemma haplobin_tiled (chrs : list (list T)) (nblk : list nat) :
   = concat (labels_from 0 nblk chrs).
 Proof. intros HL HN. unfold haplobin. apply (haplobin_loop_tiled chrs nblk [] [] 0 HL HN eq_refl). Qed.
 End Genome.
+
+(** generic facts on strongly sorted lists *)
+Lemma ss_map {A B} (R : A -> A -> Prop) (R' : B -> B -> Prop) (g : A -> B) (l : list A) :
+  (forall x y, In x l -> In y l -> R x y -> R' (g x) (g y)) -> StronglySorted R l -> StronglySorted R' (map g l).
+Proof.
+  intros H S. induction S as [|a l S IH F]; cbn [map]; constructor.
+  - apply IH. intros x y Hx Hy. apply H; now right.
+  - apply Forall_forall. intros b Hb. apply in_map_iff in Hb as (x & <- & Hx). apply H; [now left | now right |].
+    rewrite Forall_forall in F. now apply F.
+Qed.
+Lemma ss_app {A} (R : A -> A -> Prop) (l1 l2 : list A) :
+  StronglySorted R l1 -> StronglySorted R l2 -> (forall x y, In x l1 -> In y l2 -> R x y) -> StronglySorted R (l1 ++ l2).
+Proof.
+  intros S1 S2 H. induction S1 as [|a l S IH F]; cbn [app]; [exact S2|]. constructor.
+  - apply IH. intros x y Hx Hy. apply H; [now right | exact Hy].
+  - apply Forall_app. split; [exact F|]. apply Forall_forall. intros y Hy. apply H; [now left | exact Hy].
+Qed.
+Lemma ss_hd {A} (R : A -> A -> Prop) (d : A) (l : list A) : (forall x, In x l -> R x x) -> StronglySorted R l ->
+  forall x, In x l -> R (hd d l) x.
+Proof.
+  intros Hr S x Hx. destruct S as [|a l S F]; [destruct Hx|]. cbn [hd]. destruct Hx as [<-|Hx]; [apply Hr; now left|].
+  rewrite Forall_forall in F. now apply F.
+Qed.
+Lemma ss_last {A} (R : A -> A -> Prop) (d : A) (l : list A) : (forall x, In x l -> R x x) -> StronglySorted R l ->
+  forall x, In x l -> R x (last l d).
+Proof.
+  intros Hr S. induction S as [|a l S IH F]; intros x Hx; [destruct Hx|].
+  destruct l as [|b l'].
+  - destruct Hx as [<-|[]]. cbn. apply Hr. now left.
+  - change (last (a :: b :: l') d) with (last (b :: l') d). destruct Hx as [<-|Hx].
+    + rewrite Forall_forall in F. apply F. clear. induction l' as [|c l'' IHl] in b |- *; [now left|].
+      change (last (b :: c :: l'') d) with (last (c :: l'') d). right. apply IHl.
+    + apply IH; [|exact Hx]. intros y Hy. apply Hr. now right.
+Qed.
+
+Definition offset (nblk : list nat) (c : nat) : nat := list_sum (firstn c nblk).
+Fixpoint ranges (k : nat) (nblk : list nat) (labs : list (list nat)) : Prop :=
+  match nblk, labs with
+  | n :: nb, l :: ls => Forall (fun j => k <= j < k + n) l /\ ranges (k + n) nb ls
+  | [], [] => True
+  | _, _ => False
+  end.
+Lemma ranges_lower : forall nblk labs k, ranges k nblk labs -> Forall (fun j => k <= j) (concat labs).
+Proof.
+  induction nblk as [|n nb IH]; intros [|l ls] k H; cbn in H; try contradiction; [constructor|].
+  destruct H as [H1 H2]. cbn [concat]. apply Forall_app. split.
+  - eapply Forall_impl; [|exact H1]. cbn. intros; lia.
+  - eapply Forall_impl; [|apply (IH _ _ H2)]. cbn. intros; lia.
+Qed.
+Lemma offset_0 nblk : offset nblk 0 = 0.
+Proof. reflexivity. Qed.
+Lemma offset_S n nb c : offset (n :: nb) (S c) = n + offset nb c.
+Proof. reflexivity. Qed.
+Lemma ranges_nth : forall nblk labs k c l, ranges k nblk labs -> nth_error labs c = Some l ->
+  Forall (fun j => k + offset nblk c <= j < k + offset nblk (S c)) l.
+Proof.
+  induction nblk as [|n nb IH]; intros [|l0 ls] k c l H E; cbn in H; try contradiction.
+  - destruct c; discriminate.
+  - destruct H as [H1 H2]. destruct c as [|c]; cbn in E.
+    + injection E as <-. rewrite offset_0, offset_S, offset_0. eapply Forall_impl; [|exact H1]. cbn. intros; lia.
+    + specialize (IH ls (k + n) c l H2 E). rewrite !offset_S.
+      eapply Forall_impl; [|exact IH]. cbn beta. intros a Ha. lia.
+Qed.
+
+Lemma Forall2_len {A B} (R : A -> B -> Prop) l1 l2 : Forall2 R l1 l2 -> length l1 = length l2.
+Proof. induction 1; cbn; congruence. Qed.
+
+Section GenomeOrder.
+Context {T : Type} (O : ops T) (ok : T -> Prop).
+Hypothesis leb_total : forall x y, ok x -> ok y -> o_leb O x y = true \/ o_leb O y x = true.
+Hypothesis leb_trans : forall x y z, ok x -> ok y -> ok z -> o_leb O x y = true -> o_leb O y z = true -> o_leb O x z = true.
+Notation le := (fun x y => o_leb O x y = true).
+Notation z := (o_ofn O 0).
+
+(** a valid chromosome: at least one marker, positions are proper numbers, sorted *)
+Definition chrom_ok (c : list T) : Prop := c <> [] /\ Forall ok c /\ StronglySorted le c.
+(** what the theorems need of the boundaries linspace(first, last, n+1): proper numbers, the first boundary is
+    not above the first marker (the last boundary IS the last marker, by the code of linspace) *)
+Definition bounds_ok (n : nat) (c : list T) : Prop :=
+  Forall ok (linspace O (hd z c) (last c z) n) /\ o_leb O (hd z (linspace O (hd z c) (last c z) n)) (hd z c) = true.
+
+Lemma linspace_length lo hi n : length (linspace O lo hi n) = S n.
+Proof. unfold linspace. rewrite app_length, map_length, seq_length. cbn. lia. Qed.
+Lemma linspace_last lo hi n d : last (linspace O lo hi n) d = hi.
+Proof. unfold linspace. apply last_last. Qed.
+
+Lemma chrom_labels_spec (k n : nat) (c : list T) : 1 <= n -> chrom_ok c -> bounds_ok n c ->
+  exists l : list nat, chrom_labels O k n c = map Some l /\ length l = length c
+                       /\ Forall (fun j => k <= j < k + n) l /\ StronglySorted Nat.le l.
+Proof.
+  intros Hn (Hne & Hok & Hs) (Hb & Hfirst).
+  set (hb := linspace O (hd z c) (last c z) n) in *.
+  assert (Hrefl : forall x, In x c -> o_leb O x x = true).
+  { intros x Hx. rewrite Forall_forall in Hok. apply (le_refl O ok leb_total). now apply Hok. }
+  assert (Hhd : ok (hd z hb)).
+  { rewrite Forall_forall in Hb. apply Hb. unfold hb, linspace. destruct n; [lia|]. cbn. now left. }
+  assert (Hcov : forall x, In x c -> exists j, bin_label O hb x k None = Some j /\ k <= j < k + n).
+  { intros x Hx. assert (Hokx : ok x) by (rewrite Forall_forall in Hok; now apply Hok).
+    destruct (bin_label_cover O ok leb_total z hb x Hb Hokx) with (k := k) (acc := @None nat) as (j & E & R).
+    - unfold hb. rewrite linspace_length. lia.
+    - apply (leb_trans _ (hd z c) _ Hhd); [|exact Hokx|exact Hfirst|].
+      + rewrite Forall_forall in Hok. apply Hok. destruct c; [congruence|now left].
+      + apply (ss_hd le z c Hrefl Hs x Hx).
+    - unfold hb. rewrite linspace_last. apply (ss_last le z c Hrefl Hs x Hx).
+    - exists j. split; [exact E|]. unfold hb in R. rewrite linspace_length in R. lia. }
+  set (lab := fun x => match bin_label O hb x k None with Some j => j | None => 0 end).
+  exists (map lab c). split; [|split; [|split]].
+  - unfold chrom_labels. fold hb. rewrite map_map. apply map_ext_in. intros x Hx. unfold lab.
+    destruct (Hcov x Hx) as (j & -> & _). reflexivity.
+  - apply map_length.
+  - apply Forall_forall. intros j Hj. apply in_map_iff in Hj as (x & <- & Hx). unfold lab.
+    destruct (Hcov x Hx) as (j & -> & R). exact R.
+  - apply (ss_map le Nat.le lab c); [|exact Hs]. intros x y Hx Hy Hxy. unfold lab.
+    destruct (Hcov x Hx) as (jx & Ex & Rx). rewrite Ex.
+    assert (Hokx : ok x) by (rewrite Forall_forall in Hok; now apply Hok).
+    assert (Hoky : ok y) by (rewrite Forall_forall in Hok; now apply Hok).
+    destruct (bin_label_mono O ok leb_total leb_trans z hb x y Hb Hokx Hoky Hxy) with (k := k) (accx := @None nat) (accy := @None nat) (jx := jx) as (jy & Ey & Le).
+    + unfold hb. rewrite linspace_last. apply (ss_last le z c Hrefl Hs y Hy).
+    + discriminate.
+    + exact Ex.
+    + lia.
+    + rewrite Ey. exact Le.
+Qed.
+
+Lemma labels_from_spec : forall (chrs : list (list T)) (nblk : list nat) (k : nat),
+  Forall (fun n => 1 <= n) nblk -> Forall chrom_ok chrs -> Forall2 bounds_ok nblk chrs ->
+  exists labs : list (list nat), labels_from O k nblk chrs = map (map Some) labs
+    /\ Forall2 (fun c l => length l = length c) chrs labs /\ ranges k nblk labs /\ StronglySorted Nat.le (concat labs).
+Proof.
+  induction chrs as [|c cs IH]; intros nblk k H1 Hc Hb.
+  - inversion Hb; subst. exists []. cbn. repeat split; constructor.
+  - inversion Hb as [|n c' nb cs' Hbc Hb']; subst. apply Forall_cons_iff in H1 as [Hn H1]. apply Forall_cons_iff in Hc as [Hc0 Hc].
+    destruct (chrom_labels_spec k n c Hn Hc0 Hbc) as (l & El & Ll & Rl & Sl).
+    destruct (IH nb (k + n) H1 Hc Hb') as (ls & Els & Lls & Rls & Sls).
+    exists (l :: ls). cbn [labels_from map concat ranges]. rewrite El, Els. repeat split; [constructor; assumption | assumption | assumption |].
+    apply ss_app; [assumption|assumption|]. intros x y Hx Hy.
+    rewrite Forall_forall in Rl. specialize (Rl x Hx). pose proof (ranges_lower _ _ _ Rls) as Lo. rewrite Forall_forall in Lo. specialize (Lo y Hy). cbn in Lo.
+    unfold Nat.le. lia.
+Qed.
+
+(** haplobin on a genome whose chromosome groups tile the markers *)
+Lemma haplobin_spec (chrs : list (list T)) (nblk : list nat) :
+  Forall (fun n => 1 <= n) nblk -> Forall chrom_ok chrs -> Forall2 bounds_ok nblk chrs ->
+  exists labs : list (list nat),
+    haplobin O nblk (concat chrs) (starts_from 0 (map (@length T) chrs)) (stops_from 0 (map (@length T) chrs)) = map Some (concat labs)
+    /\ Forall2 (fun c l => length l = length c) chrs labs
+    /\ (forall c l, nth_error labs c = Some l -> Forall (fun j => offset nblk c <= j < offset nblk (S c)) l)
+    /\ StronglySorted Nat.le (concat labs).
+Proof.
+  intros H1 Hc Hb. destruct (labels_from_spec chrs nblk 0 H1 Hc Hb) as (labs & E & L & R & S).
+  exists labs. split; [|split; [exact L|split; [|exact S]]].
+  - rewrite haplobin_tiled.
+    + rewrite E. now rewrite concat_map.
+    + now apply Forall2_len in Hb.
+    + eapply Forall_impl; [|exact Hc]. intros c (H & _). exact H.
+  - intros c l Hl. pose proof (ranges_nth _ _ _ _ _ R Hl) as F. eapply Forall_impl; [|exact F]. cbn. intros; lia.
+Qed.
+End GenomeOrder.
+
+(** * D. haplobin_bounds: the run-length boundaries partition 0..p into non-empty runs of constant label *)
+(** consecutive (start, stop) pairs leading from [a] to [b], every one non-empty *)
+Fixpoint chain (a : nat) (bs : list (nat * nat)) (b : nat) : Prop :=
+  match bs with
+  | [] => a = b
+  | (st, sp) :: r => st = a /\ st < sp /\ chain sp r b
+  end.
+
+Lemma breaks_bounds : forall (l : list nat) prev i, Forall (fun b => i <= b < i + length l) (breaks prev l i).
+Proof.
+  induction l as [|x r IH]; intros prev i; cbn [breaks length]; [constructor|].
+  destruct (x =? prev).
+  - eapply Forall_impl; [|apply IH]. cbn. intros; lia.
+  - constructor; [lia|]. eapply Forall_impl; [|apply IH]. cbn. intros; lia.
+Qed.
+
+(** pairs (a, b1), (b1, b2), ..., (bk, e) *)
+Fixpoint pairs_from (a : nat) (bk : list nat) (e : nat) : list (nat * nat) :=
+  match bk with [] => [(a, e)] | b :: r => (a, b) :: pairs_from b r e end.
+Lemma combine_breaks : forall bk a e, combine (a :: bk) (bk ++ [e]) = pairs_from a bk e.
+Proof. induction bk as [|b r IH]; intros a e; cbn; [reflexivity|]. f_equal. apply IH. Qed.
+
+Lemma breaks_chain : forall (l : list nat) prev i a, a < i ->
+  chain a (pairs_from a (breaks prev l i) (i + length l)) (i + length l).
+Proof.
+  induction l as [|x r IH]; intros prev i a Ha; cbn [breaks length].
+  - cbn. repeat split; lia.
+  - destruct (x =? prev).
+    + replace (i + S (length r)) with (S i + length r) by lia. apply IH. lia.
+    + cbn [pairs_from chain]. repeat split; [lia|]. replace (i + S (length r)) with (S i + length r) by lia. apply IH. lia.
+Qed.
+
+(** the runs are a run-length encoding of the labels: every run carries one label ([run_vals]), adjacent runs
+    carry different labels, and decoding gives the label array back *)
+Fixpoint run_vals (prev : nat) (l : list nat) : list nat :=
+  match l with [] => [] | x :: r => if x =? prev then run_vals prev r else x :: run_vals x r end.
+Definition decode (bs : list (nat * nat)) (vs : list nat) : list nat :=
+  concat (map2 (fun b v => repeat v (snd b - fst b)) bs vs).
+Fixpoint adjacent_differ (l : list nat) : Prop :=
+  match l with a :: r => match r with b :: _ => a <> b /\ adjacent_differ r | [] => True end | [] => True end.
+
+Lemma repeat_snoc {A} (x : A) n : repeat x n ++ [x] = repeat x (S n).
+Proof. induction n as [|n IH]; cbn; [reflexivity|]. now rewrite IH. Qed.
+
+Lemma breaks_decode : forall (l : list nat) prev i a, a < i ->
+  decode (pairs_from a (breaks prev l i) (i + length l)) (prev :: run_vals prev l) = repeat prev (i - a) ++ l.
+Proof.
+  induction l as [|x r IH]; intros prev i a Ha; cbn [breaks run_vals length].
+  - unfold decode. cbn. rewrite !app_nil_r. f_equal. lia.
+  - destruct (Nat.eqb_spec x prev) as [->|NE].
+    + replace (i + S (length r)) with (S i + length r) by lia. rewrite IH by lia.
+      replace (S i - a) with (S (i - a)) by lia. rewrite <- repeat_snoc, <- app_assoc. reflexivity.
+    + replace (i + S (length r)) with (S i + length r) by lia. unfold decode in *. cbn [pairs_from map2 concat fst snd].
+      rewrite IH by lia. replace (S i - i) with 1 by lia. reflexivity.
+Qed.
+
+Lemma run_vals_adjacent : forall (l : list nat) prev, adjacent_differ (prev :: run_vals prev l).
+Proof.
+  induction l as [|x r IH]; intros prev; cbn [run_vals]; [exact I|].
+  destruct (Nat.eqb_spec x prev) as [->|NE]; [apply IH|].
+  split; [congruence | apply IH].
+Qed.
+
+Lemma breaks_run_vals_length : forall (l : list nat) prev i, length (breaks prev l i) = length (run_vals prev l).
+Proof. induction l as [|x r IH]; intros prev i; cbn; [reflexivity|]. destruct (x =? prev); cbn; now rewrite IH. Qed.
+
+Lemma haplobin_bounds_partition (lab : list nat) : lab <> [] ->
+  exists hst hsp hlen vals, haplobin_bounds lab = Ok (hst, hsp, hlen) /\ length hst = length hsp /\ length vals = length hst
+    /\ chain 0 (combine hst hsp) (length lab) /\ hlen = map2 Nat.sub hsp hst
+    /\ decode (combine hst hsp) vals = lab /\ adjacent_differ vals.
+Proof.
+  destruct lab as [|x0 r]; [congruence|]. intros _. unfold haplobin_bounds.
+  exists (0 :: breaks x0 r 1), (breaks x0 r 1 ++ [length (x0 :: r)]), (map2 Nat.sub (breaks x0 r 1 ++ [length (x0 :: r)]) (0 :: breaks x0 r 1)), (x0 :: run_vals x0 r).
+  split; [reflexivity|]. split; [cbn [length]; rewrite app_length; cbn; lia|].
+  split; [cbn [length]; now rewrite breaks_run_vals_length|]. split; [|split; [reflexivity|split]].
+  - rewrite combine_breaks. cbn [length]. change (S (length r)) with (1 + length r). apply breaks_chain. lia.
+  - rewrite combine_breaks. cbn [length]. change (S (length r)) with (1 + length r). rewrite breaks_decode by lia. reflexivity.
+  - apply run_vals_adjacent.
+Qed.
+
+(** * E. block values: conservation and block-boundary recombinants *)
+Local Open Scope Q_scope.
+Lemma sumQ_app (a b : list Q) : sumQ (a ++ b) == sumQ a + sumQ b.
+Proof. unfold sumQ. induction a as [|x a IH]; simpl; [ring | rewrite IH; ring]. Qed.
+Lemma map2_app {A B C} (f : A -> B -> C) : forall (l1 l2 : list A) (r1 r2 : list B), length l1 = length r1 ->
+  map2 f (l1 ++ l2) (r1 ++ r2) = map2 f l1 r1 ++ map2 f l2 r2.
+Proof. induction l1 as [|x l1 IH]; intros l2 [|y r1] r2 H; cbn in *; try discriminate; [reflexivity|]. f_equal. apply IH. lia. Qed.
+Lemma dotZQ_app (g1 g2 : list Z) (u1 u2 : list Q) : length g1 = length u1 ->
+  dotZQ (g1 ++ g2) (u1 ++ u2) == dotZQ g1 u1 + dotZQ g2 u2.
+Proof. intros H. unfold dotZQ. rewrite map2_app by exact H. apply sumQ_app. Qed.
+
+Local Open Scope nat_scope.
+Lemma firstn_add {A} : forall n m (l : list A), firstn (n + m) l = firstn n l ++ firstn m (skipn n l).
+Proof. induction n as [|n IH]; intros m l; [reflexivity|]. destruct l as [|x l]; cbn; [now rewrite firstn_nil|]. f_equal. apply IH. Qed.
+Lemma skipn_add {A} : forall m n (l : list A), skipn n (skipn m l) = skipn (m + n) l.
+Proof. induction m as [|m IH]; intros n l; [reflexivity|]. destruct l as [|x l]; cbn [skipn plus]; [now rewrite skipn_nil|]. apply IH. Qed.
+Lemma slice_split {A} (a b c : nat) (l : list A) : a <= b <= c -> slice a c l = slice a b l ++ slice b c l.
+Proof.
+  intros [H1 H2]. unfold slice. replace (c - a) with ((b - a) + (c - b)) by lia. rewrite firstn_add. f_equal.
+  rewrite skipn_add. f_equal. f_equal. lia.
+Qed.
+Lemma slice_length {A} (a b : nat) (l : list A) : b <= length l -> length (slice a b l) = b - a.
+Proof. intros H. unfold slice. rewrite firstn_length, skipn_length. lia. Qed.
+Lemma slice_all {A} (l : list A) : slice 0 (length l) l = l.
+Proof. unfold slice. rewrite Nat.sub_0_r. cbn [skipn]. apply firstn_all. Qed.
+Lemma slice_nil {A} (a : nat) (l : list A) : slice a a l = [].
+Proof. unfold slice. now rewrite Nat.sub_diag. Qed.
+Lemma chain_le : forall bs a b, chain a bs b -> a <= b.
+Proof. induction bs as [|[st sp] r IH]; intros a b H; cbn in H; [lia|]. destruct H as (-> & L & C). apply IH in C. lia. Qed.
+
+(** the haplotype that takes block j (markers st_j..sp_j) from the copy [src j] *)
+Fixpoint recomb (src : nat -> list Z) (j : nat) (bs : list (nat * nat)) : list Z :=
+  match bs with [] => [] | (st, sp) :: r => slice st sp (src j) ++ recomb src (S j) r end.
+Fixpoint block_sum (src : nat -> list Z) (ucol : list Q) (j : nat) (bs : list (nat * nat)) : Q :=
+  match bs with [] => 0%Q | (st, sp) :: r => (block_val (src j) ucol st sp + block_sum src ucol (S j) r)%Q end.
+
+Lemma recomb_value (src : nat -> list Z) (ucol : list Q) : forall bs a b j, chain a bs b -> b <= length ucol ->
+  (forall j', j <= j' < j + length bs -> b <= length (src j')) ->
+  (dotZQ (recomb src j bs) (slice a b ucol) == block_sum src ucol j bs)%Q.
+Proof.
+  induction bs as [|[st sp] r IH]; intros a b j C Hu Hs; cbn [chain recomb block_sum length] in *.
+  - subst b. rewrite slice_nil. reflexivity.
+  - destruct C as (-> & L & C). pose proof (chain_le _ _ _ C) as Lb.
+    rewrite (slice_split a sp b) by lia. rewrite dotZQ_app.
+    + rewrite (IH sp b (S j) C Hu); [reflexivity|]. intros j' Hj'. apply Hs. lia.
+    + rewrite !slice_length; [reflexivity | lia | specialize (Hs j ltac:(lia)); lia].
+Qed.
+
+Lemma recomb_const (g : list Z) : forall bs a b j, chain a bs b -> recomb (fun _ => g) j bs = slice a b g.
+Proof.
+  induction bs as [|[st sp] r IH]; intros a b j C; cbn [chain recomb] in *.
+  - subst. now rewrite slice_nil.
+  - destruct C as (-> & L & C). pose proof (chain_le _ _ _ C). rewrite (IH sp b (S j) C). symmetry. apply slice_split. lia.
+Qed.
+
+(** conservation: over any partition of 0..p into runs the block values of a copy add up to its additive value *)
+Lemma block_sum_conservation (g : list Z) (ucol : list Q) (bs : list (nat * nat)) (j : nat) :
+  chain 0 bs (length g) -> length ucol = length g -> (block_sum (fun _ => g) ucol j bs == dotZQ g ucol)%Q.
+Proof.
+  intros C L. rewrite <- (recomb_value (fun _ => g) ucol bs 0 (length g) j C) by (intros; lia).
+  rewrite (recomb_const g bs 0 (length g) j C). rewrite <- L at 2. now rewrite !slice_all.
+Qed.
+
+(** * F. optimal haploid / population value = ploidy * sum over blocks of the best designated copy *)
+Lemma nth_map_seq {A} (f : nat -> A) n i d : i < n -> nth i (map f (seq 0 n)) d = f i.
+Proof.
+  intros H. rewrite (nth_indep _ d (f 0)) by (rewrite map_length, seq_length; lia).
+  rewrite (map_nth f (seq 0 n) 0 i), seq_nth by lia. reflexivity.
+Qed.
+
+Local Open Scope Q_scope.
+Lemma Qmax'_ub x y : x <= Qmax' x y /\ y <= Qmax' x y.
+Proof.
+  unfold Qmax'. destruct (Qle_bool x y) eqn:E.
+  - apply Qle_bool_iff in E. split; [exact E | apply Qle_refl].
+  - split; [apply Qle_refl|]. apply Qlt_le_weak, Qnot_le_lt. intros H. apply Qle_bool_iff in H. congruence.
+Qed.
+Lemma Qmax'_cases x y : Qmax' x y = x \/ Qmax' x y = y.
+Proof. unfold Qmax'. destruct (Qle_bool x y); auto. Qed.
+
+Lemma fold_omax_spec {C} (f : C -> option Q) : forall (r : list C) (q0 : Q), (forall c, In c r -> exists q, f c = Some q) ->
+  exists M, fold_left (fun acc c' => omax acc (f c')) r (Some q0) = Some M /\ q0 <= M
+            /\ (forall c q, In c r -> f c = Some q -> q <= M) /\ (M = q0 \/ exists c, In c r /\ f c = Some M).
+Proof.
+  induction r as [|c r IH]; intros q0 H; cbn [fold_left].
+  - exists q0. split; [reflexivity|]. split; [apply Qle_refl|]. split; [intros ? ? []|now left].
+  - destruct (H c (or_introl eq_refl)) as (q & Eq). rewrite Eq. cbn [omax].
+    destruct (IH (Qmax' q0 q)) as (M & EM & L & U & A); [intros c' Hc'; apply H; now right|].
+    destruct (Qmax'_ub q0 q) as [U0 U1].
+    exists M. split; [exact EM|]. split; [eapply Qle_trans; eauto|]. split.
+    + intros c' q' [<-|Hc'] E'; [rewrite Eq in E'; injection E' as <-; eapply Qle_trans; eauto | eapply U; eauto].
+    + destruct A as [->|(c' & Hc' & E')].
+      * destruct (Qmax'_cases q0 q) as [->| ->]; [now left | right; exists c; split; [now left | exact Eq]].
+      * right. exists c'. split; [now right | exact E'].
+Qed.
+
+Definition bestv (cs : list cand_t) (b t : nat) : Q := match best cs b t with Some q => q | None => 0 end.
+
+Lemma best_spec (cs : list cand_t) (b t : nat) : cs <> [] -> (forall c, In c cs -> exists q, ent c b t = Some q) ->
+  best cs b t = Some (bestv cs b t) /\ (forall c q, In c cs -> ent c b t = Some q -> q <= bestv cs b t)
+  /\ exists c, In c cs /\ ent c b t = Some (bestv cs b t).
+Proof.
+  destruct cs as [|c0 r]; [congruence|]. intros _ H. unfold bestv, best.
+  destruct (H c0 (or_introl eq_refl)) as (q0 & E0). rewrite E0.
+  destruct (fold_omax_spec (fun c' => ent c' b t) r q0) as (M & EM & L & U & A); [intros c Hc; apply H; now right|].
+  rewrite EM. split; [reflexivity|]. split.
+  - intros c q [<-|Hc] E; [rewrite E0 in E; injection E as <-; exact L | eapply U; eauto].
+  - destruct A as [->|(c & Hc & E)]; [exists c0; split; [now left|exact E0] | exists c; split; [now right|exact E]].
+Qed.
+
+Lemma osum_map_some (F : nat -> option Q) (V : nat -> Q) : forall l, (forall b, In b l -> F b = Some (V b)) ->
+  osum (map F l) = Some (sumQ (map V l)).
+Proof.
+  induction l as [|b l IH]; intros H; [reflexivity|]. cbn [map osum fold_right]. fold (osum (map F l)).
+  rewrite IH by (intros; apply H; now right). rewrite (H b (or_introl eq_refl)). reflexivity.
+Qed.
+Lemma sumQ_map_le (v w : nat -> Q) : forall l, (forall b, In b l -> v b <= w b) -> sumQ (map v l) <= sumQ (map w l).
+Proof.
+  induction l as [|b l IH]; intros H; [apply Qle_refl|]. cbn [map sumQ fold_right]. fold (sumQ (map v l)) (sumQ (map w l)).
+  apply Qplus_le_compat; [apply H; now left | apply IH; intros; apply H; now right].
+Qed.
+Lemma sumQ_map_eq (v w : nat -> Q) : forall l, (forall b, In b l -> v b == w b) -> sumQ (map v l) == sumQ (map w l).
+Proof.
+  induction l as [|b l IH]; intros H; [reflexivity|]. cbn [map sumQ fold_right]. fold (sumQ (map v l)) (sumQ (map w l)).
+  rewrite (H b (or_introl eq_refl)), IH; [reflexivity | intros; apply H; now right].
+Qed.
+
+(** definition of the optimal haploid value of a parent tuple, trait t *)
+Lemma ohv_row_def (ploidy : Z) (nb nt : nat) (cs : list cand_t) (t : nat) : (t < nt)%nat -> cs <> [] ->
+  (forall c b, In c cs -> (b < nb)%nat -> exists q, ent c b t = Some q) ->
+  nth t (ohv_row ploidy nb nt cs) None = Some (inject_Z ploidy * sumQ (map (fun b => bestv cs b t) (seq 0 nb)))
+  /\ forall b, (b < nb)%nat -> (forall c q, In c cs -> ent c b t = Some q -> q <= bestv cs b t)
+                              /\ exists c, In c cs /\ ent c b t = Some (bestv cs b t).
+Proof.
+  intros Ht Hne H. split.
+  - unfold ohv_row. rewrite nth_map_seq by exact Ht.
+    rewrite (osum_map_some (fun b => best cs b t) (fun b => bestv cs b t)); [reflexivity|].
+    intros b Hb. apply in_seq in Hb. apply best_spec; [exact Hne|]. intros c Hc. apply (H c b Hc). lia.
+  - intros b Hb. destruct (best_spec cs b t Hne) as (_ & U & A); [intros c Hc; now apply H|]. split; assumption.
+Qed.
+
+(** no way of choosing one designated copy per block beats it *)
+Lemma ohv_row_bound (ploidy : Z) (nb nt : nat) (cs : list cand_t) (t : nat) : (0 <= ploidy)%Z -> (t < nt)%nat -> cs <> [] ->
+  (forall c b, In c cs -> (b < nb)%nat -> exists q, ent c b t = Some q) ->
+  forall (ch : nat -> cand_t) (v : nat -> Q), (forall b, (b < nb)%nat -> In (ch b) cs /\ ent (ch b) b t = Some (v b)) ->
+  inject_Z ploidy * sumQ (map v (seq 0 nb)) <= inject_Z ploidy * sumQ (map (fun b => bestv cs b t) (seq 0 nb)).
+Proof.
+  intros Hp Ht Hne H ch v Hch. rewrite !(Qmult_comm (inject_Z ploidy)). apply Qmult_le_compat_r.
+  - apply sumQ_map_le. intros b Hb. apply in_seq in Hb. destruct (Hch b) as [Hin E]; [lia|].
+    destruct (best_spec cs b t Hne) as (_ & U & _); [intros c Hc; apply (H c b Hc); lia|]. eapply U; eauto.
+  - change 0 with (inject_Z 0). rewrite <- Zle_Qle. exact Hp.
+Qed.
+
+(** * G. the (m,n,b,t) array of haplomat / _calc_haplomat *)
+Local Open Scope nat_scope.
+Lemma ent_cand_of nhap nt u bounds g b t : b < nhap -> t < nt ->
+  ent (cand_of nhap nt u bounds g) b t =
+  match nth_error bounds b with Some (st, sp) => Some (block_val g (col 0%Q t u) st sp) | None => None end.
+Proof. intros Hb Ht. unfold ent, cand_of. rewrite nth_map_seq by lia. rewrite nth_map_seq by lia. reflexivity. Qed.
+
+Lemma block_sum_seq (src : nat -> list Z) (ucol : list Q) : forall bs j,
+  (block_sum src ucol j bs == sumQ (map (fun i => let '(st, sp) := nth i bs (0%nat, 0%nat) in block_val (src (j + i)%nat) ucol st sp) (seq 0 (length bs))))%Q.
+Proof.
+  induction bs as [|[st sp] r IH]; intros j; cbn [block_sum length]; [reflexivity|].
+  cbn [seq map]. rewrite <- seq_shift, map_map. cbn [sumQ fold_right nth].
+  rewrite Nat.add_0_r. rewrite IH. unfold sumQ. apply Qplus_comp; [reflexivity|].
+  apply sumQ_map_eq. intros i _. cbn [nth]. replace (j + S i) with (S j + i) by lia. reflexivity.
+Qed.
+
+(** the guard: as many runs as requested blocks => every entry is written *)
+Lemma hmat_all_written nhap nt u bounds g b t : length bounds = nhap -> b < nhap -> t < nt ->
+  exists q, ent (cand_of nhap nt u bounds g) b t = Some q.
+Proof.
+  intros L Hb Ht. rewrite ent_cand_of by assumption. destruct (nth_error bounds b) as [[st sp]|] eqn:E; [eauto|].
+  apply nth_error_None in E. lia.
+Qed.
+(** fewer runs than requested blocks => block number [length bounds] is never written *)
+Lemma hmat_unwritten nhap nt u bounds g t : length bounds < nhap -> t < nt ->
+  ent (cand_of nhap nt u bounds g) (length bounds) t = None.
+Proof.
+  intros L Ht. rewrite ent_cand_of by assumption. destruct (nth_error bounds (length bounds)) eqn:E; [|reflexivity].
+  assert (nth_error bounds (length bounds) <> None) by congruence. apply nth_error_Some in H. lia.
+Qed.
+
+Lemma hmat_conservation nhap nt u bounds (g : list Z) t : t < nt -> length bounds = nhap ->
+  chain 0 bounds (length g) -> length u = length g ->
+  exists s, osum (map (fun b => ent (cand_of nhap nt u bounds g) b t) (seq 0 nhap)) = Some s /\ (s == dotZQ g (col 0%Q t u))%Q.
+Proof.
+  intros Ht L C Lu.
+  set (V := fun b => let '(st, sp) := nth b bounds (0, 0) in block_val g (col 0%Q t u) st sp).
+  exists (sumQ (map V (seq 0 nhap))). split.
+  - apply osum_map_some. intros b Hb. apply in_seq in Hb. rewrite ent_cand_of by lia.
+    rewrite (nth_error_nth' bounds (0, 0)) by lia. unfold V. destruct (nth b bounds (0, 0)). reflexivity.
+  - rewrite <- (block_sum_conservation g (col 0%Q t u) bounds 0 C) by (unfold col; now rewrite map_length).
+    rewrite block_sum_seq, L. reflexivity.
+Qed.
+
+(** the chromosome copies designated by a parent tuple, and their rows of the array *)
+Definition copies (geno : list (list (list Z))) (parents : list nat) : list (list Z) :=
+  flat_map (fun phm => map (fun d => nth d phm []) parents) geno.
+Lemma cands_hmat_of nhap nt geno u bounds parents :
+  Forall (fun phm => Forall (fun d => d < length phm) parents) geno ->
+  cands (hmat_of nhap nt geno u bounds) parents = map (cand_of nhap nt u bounds) (copies geno parents).
+Proof.
+  intros H. unfold cands, copies, hmat_of. induction H as [|phm geno Hp _ IH]; [reflexivity|].
+  cbn [map flat_map]. rewrite map_app, IH. f_equal. rewrite map_map. apply map_ext_in. intros d Hd.
+  rewrite Forall_forall in Hp. specialize (Hp d Hd).
+  rewrite (nth_indep _ [] (cand_of nhap nt u bounds [])) by (now rewrite map_length). apply map_nth.
+Qed.
+
+(** the optimal haploid value bounds the value of every haplotype that recombines only at block boundaries *)
+Lemma ohv_bounds_recombinants (ploidy : Z) nhap nt geno u bounds parents t p :
+  (0 <= ploidy)%Z -> t < nt -> length bounds = nhap -> chain 0 bounds p -> length u = p ->
+  Forall (fun phm => Forall (fun d => d < length phm) parents) geno -> copies geno parents <> [] ->
+  Forall (fun g => length g = p) (copies geno parents) ->
+  let cs := cands (hmat_of nhap nt geno u bounds) parents in
+  exists V, nth t (ohv_row ploidy nhap nt cs) None = Some V
+    /\ (V == inject_Z ploidy * sumQ (map (fun b => bestv cs b t) (seq 0 nhap)))%Q
+    /\ (forall b, b < nhap -> (forall c q, In c cs -> ent c b t = Some q -> (q <= bestv cs b t)%Q)
+                             /\ exists c, In c cs /\ ent c b t = Some (bestv cs b t))
+    /\ forall src : nat -> list Z, (forall b, b < nhap -> In (src b) (copies geno parents)) ->
+         (inject_Z ploidy * dotZQ (recomb src 0 bounds) (col 0%Q t u) <= V)%Q.
+Proof.
+  intros Hp Ht L C Lu Hpar Hne Hlen cs.
+  assert (Ecs : cs = map (cand_of nhap nt u bounds) (copies geno parents)) by (apply cands_hmat_of; exact Hpar).
+  assert (Hcs : cs <> []) by (rewrite Ecs; destruct (copies geno parents); [congruence|discriminate]).
+  assert (Hall : forall c b, In c cs -> b < nhap -> exists q, ent c b t = Some q).
+  { intros c b Hc Hb. rewrite Ecs in Hc. apply in_map_iff in Hc as (g & <- & _). now apply hmat_all_written. }
+  destruct (ohv_row_def ploidy nhap nt cs t Ht Hcs Hall) as [Edef Hbest].
+  eexists. split; [exact Edef|]. split; [reflexivity|]. split; [exact Hbest|].
+  intros src Hsrc.
+  set (v := fun b => let '(st, sp) := nth b bounds (0, 0) in block_val (src b) (col 0%Q t u) st sp).
+  assert (Eval : (dotZQ (recomb src 0 bounds) (col 0%Q t u) == sumQ (map v (seq 0 nhap)))%Q).
+  { assert (Lc : length (col 0%Q t u) = p) by (unfold col; now rewrite map_length).
+    rewrite <- (slice_all (col 0%Q t u)) at 1. rewrite Lc.
+    rewrite (recomb_value src (col 0%Q t u) bounds 0 p 0 C); [| lia |].
+    - rewrite block_sum_seq, L. reflexivity.
+    - intros j' Hj'. rewrite Forall_forall in Hlen. rewrite (Hlen (src j')); [lia|]. apply Hsrc. lia. }
+  rewrite Eval.
+  apply (ohv_row_bound ploidy nhap nt cs t Hp Ht Hcs Hall (fun b => cand_of nhap nt u bounds (src b)) v).
+  intros b Hb. split.
+  - rewrite Ecs. apply in_map. now apply Hsrc.
+  - rewrite ent_cand_of by assumption. rewrite (nth_error_nth' bounds (0, 0)) by lia. unfold v. destruct (nth b bounds (0, 0)). reflexivity.
+Qed.
+
+(** * H. the exact-rational instance satisfies every hypothesis used above *)
+Local Open Scope Q_scope.
+Lemma q_leb_total (x y : Q) : True -> True -> o_leb qops x y = true \/ o_leb qops y x = true.
+Proof.
+  intros _ _. cbn. destruct (Qlt_le_dec x y) as [H|H]; [left; apply Qle_bool_iff, Qlt_le_weak, H | right; apply Qle_bool_iff, H].
+Qed.
+Lemma q_leb_trans (x y z : Q) : True -> True -> True -> o_leb qops x y = true -> o_leb qops y z = true -> o_leb qops x z = true.
+Proof. intros _ _ _. cbn. rewrite !Qle_bool_iff. apply Qle_trans. Qed.
+
+Lemma q_bounds_ok (n : nat) (c : list Q) : (1 <= n)%nat -> bounds_ok qops (fun _ => True) n c.
+Proof.
+  intros Hn. split; [apply Forall_forall; intros; exact I|].
+  destruct n as [|n]; [lia|]. unfold linspace. cbn [seq map app hd]. cbn [o_leb o_eq0 o_add o_mul o_div o_ofn o_sub qops].
+  change (inject_Z (Z.of_nat 0)) with 0. generalize (hd 0 c) (last c 0) (inject_Z (Z.of_nat (S n))). intros lo hi N.
+  apply Qle_bool_iff. destruct (Qeq_bool _ 0); apply Qle_lteq; right; unfold Qdiv; ring.
+Qed.
+
+(** the rational linspace is non-decreasing as well (not needed by the theorems, recorded for completeness) *)
+Lemma q_haplobin_spec (chrs : list (list Q)) (nblk : list nat) :
+  length nblk = length chrs -> Forall (fun n => (1 <= n)%nat) nblk ->
+  Forall (fun c => c <> [] /\ StronglySorted (fun x y => Qle_bool x y = true) c) chrs ->
+  exists labs : list (list nat),
+    haplobin qops nblk (concat chrs) (starts_from 0 (map (@length Q) chrs)) (stops_from 0 (map (@length Q) chrs)) = map Some (concat labs)
+    /\ Forall2 (fun c l => length l = length c) chrs labs
+    /\ (forall c l, nth_error labs c = Some l -> Forall (fun j => (offset nblk c <= j < offset nblk (S c))%nat) l)
+    /\ StronglySorted Nat.le (concat labs).
+Proof.
+  intros HL H1 Hc. apply (haplobin_spec qops (fun _ => True) q_leb_total q_leb_trans); [exact H1 | |].
+  - eapply Forall_impl; [|exact Hc]. intros c [A B]. split; [exact A|]. split; [apply Forall_forall; intros; exact I | exact B].
+  - clear Hc. revert chrs HL. induction H1 as [|n nb Hn _ IH]; intros [|c cs] HL; cbn in HL; try discriminate; constructor.
+    + now apply q_bounds_ok.
+    + apply IH. lia.
+Qed.
+
+(** * I. haplomat / _calc_haplomat as a whole *)
+Local Open Scope nat_scope.
+Lemma all_some_spec {A} : forall (l : list (option A)) r, all_some l = Some r -> l = map Some r.
+Proof.
+  induction l as [|x l IH]; intros r H; cbn in H.
+  - injection H as <-. reflexivity.
+  - fold (all_some l) in H. destruct x as [a|]; [|discriminate]. destruct (all_some l) as [r'|] eqn:E; [|discriminate].
+    injection H as <-. cbn. f_equal. now apply IH.
+Qed.
+Lemma starts_from_length a lens : length (starts_from a lens) = length lens.
+Proof. revert a. induction lens; intros; cbn; [reflexivity|]. now rewrite IHlens. Qed.
+Lemma stops_from_length a lens : length (stops_from a lens) = length lens.
+Proof. revert a. induction lens; intros; cbn; [reflexivity|]. now rewrite IHlens. Qed.
+
+Section HaplomatSpec.
+Context {T : Type} (O : ops T).
+
+Lemma labels_from_length : forall (chrs : list (list T)) nblk k, length nblk = length chrs ->
+  length (concat (labels_from O k nblk chrs)) = length (concat chrs).
+Proof.
+  induction chrs as [|c cs IH]; intros [|n nb] k H; cbn in H; try discriminate; [reflexivity|].
+  cbn [labels_from concat]. rewrite !app_length, chrom_labels_length, IH by lia. reflexivity.
+Qed.
+
+Lemma calc_haplomat_inv e1 e2 nhap geno gp stix spix clen u nt hm :
+  calc_haplomat O e1 e2 nhap geno gp stix spix clen u nt = Ok hm ->
+  exists nblk lab hst hsp hlen, length stix <= nhap /\ nhaploblk_chrom O nhap gp stix spix = Ok nblk
+    /\ haplobin O nblk gp stix spix = map Some lab /\ haplobin_bounds lab = Ok (hst, hsp, hlen)
+    /\ calc_bounds O nhap gp stix spix = Some (combine hst hsp)
+    /\ length (combine hst hsp) <= nhap /\ hm = hmat_of nhap nt geno u (combine hst hsp).
+Proof.
+  unfold calc_haplomat, calc_bounds. intros H.
+  destruct (Nat.ltb_spec nhap (length stix)) as [|L1]; [discriminate|].
+  destruct (nhaploblk_chrom O nhap gp stix spix) as [nblk|] eqn:E1; [|discriminate].
+  destruct (existsb _ _); [discriminate|].
+  destruct (all_some (haplobin O nblk gp stix spix)) as [lab|] eqn:E2; [|discriminate].
+  destruct (haplobin_bounds lab) as [[[hst hsp] hlen]|] eqn:E3; [|discriminate].
+  destruct (Nat.ltb_spec nhap (length (combine hst hsp))) as [|L2]; [discriminate|].
+  injection H as <-. exists nblk, lab, hst, hsp, hlen. repeat split; try assumption; try reflexivity.
+  now apply all_some_spec.
+Qed.
+
+(** Whenever the call succeeds on a genome whose chromosome groups tile the markers: the block boundaries are a
+    partition of the markers into at most nhaploblk non-empty runs; if there are exactly nhaploblk runs (the guard)
+    every entry is written and the block values of every copy add up to its additive value for every trait;
+    if there are fewer, block number (#runs) of every copy is never written. *)
+Lemma haplomat_partial (chrs : list (list T)) e1 e2 nhap geno clen u nt hm :
+  chrs <> [] -> Forall (fun c => c <> []) chrs ->
+  calc_haplomat O e1 e2 nhap geno (concat chrs) (starts_from 0 (map (@length T) chrs)) (stops_from 0 (map (@length T) chrs)) clen u nt = Ok hm ->
+  exists bounds, calc_bounds O nhap (concat chrs) (starts_from 0 (map (@length T) chrs)) (stops_from 0 (map (@length T) chrs)) = Some bounds
+    /\ hm = hmat_of nhap nt geno u bounds /\ chain 0 bounds (length (concat chrs)) /\ 1 <= length bounds <= nhap
+    /\ (length bounds = nhap -> forall g t, length g = length (concat chrs) -> length u = length (concat chrs) -> t < nt ->
+          (forall b, b < nhap -> exists q, ent (cand_of nhap nt u bounds g) b t = Some q)
+          /\ exists s, osum (map (fun b => ent (cand_of nhap nt u bounds g) b t) (seq 0 nhap)) = Some s /\ (s == dotZQ g (col 0%Q t u))%Q)
+    /\ (length bounds < nhap -> forall g t, t < nt -> ent (cand_of nhap nt u bounds g) (length bounds) t = None).
+Proof.
+  intros Hne Hc H. apply calc_haplomat_inv in H as (nblk & lab & hst & hsp & hlen & L1 & E1 & E2 & E3 & E4 & L2 & ->).
+  rewrite starts_from_length, map_length in L1.
+  assert (Lnb : length nblk = length chrs).
+  { destruct (apportion_total O nhap (concat chrs) (starts_from 0 (map (@length T) chrs)) (stops_from 0 (map (@length T) chrs))) as (nb' & E & Ln & _).
+    - now rewrite starts_from_length, stops_from_length.
+    - rewrite starts_from_length, map_length. destruct chrs; [congruence|cbn in *; lia].
+    - rewrite E1 in E. injection E as <-. now rewrite Ln, starts_from_length, map_length. }
+  assert (Llab : length lab = length (concat chrs)).
+  { rewrite haplobin_tiled in E2 by assumption. apply (f_equal (@length (option nat))) in E2.
+    rewrite map_length, labels_from_length in E2 by assumption. congruence. }
+  assert (Hlab : lab <> []) by (intros ->; cbn in E3; discriminate).
+  destruct (haplobin_bounds_partition lab Hlab) as (hst' & hsp' & hlen' & vals & E3' & Lh & Lv & Ch & _ & _ & _).
+  rewrite E3 in E3'. injection E3' as <- <- <-.
+  exists (combine hst hsp). split; [exact E4|]. split; [reflexivity|]. rewrite <- Llab. split; [exact Ch|].
+  split; [split; [|exact L2]|split].
+  - destruct (combine hst hsp); [cbn in Ch; destruct lab; [congruence | cbn in Ch; discriminate] | cbn; lia].
+  - intros Lb g t Lg Lu Ht. split.
+    + intros b Hb. now apply hmat_all_written.
+    + apply hmat_conservation; [exact Ht | exact Lb | rewrite Lg; exact Ch | congruence].
+  - intros Lb g t Ht. now apply hmat_unwritten.
+Qed.
+End HaplomatSpec.
+
+(** * J. refutations: "exactly the requested total" and "finite for every valid input" are false *)
+Definition wit_chr : list Q := [0; 1#64; 2#64; 3#64; 1]%Q.
+Definition wit_geno : list (list (list Z)) := [[[1;1;1;1;1]; [1;0;1;0;1]]; [[0;1;1;0;1]; [1;1;0;0;0]]]%Z.
+Definition wit_u : list (list Q) := [[1]; [2]; [-1]; [1#2]; [4]]%Q.
+Definition wit_chr_f : list float := [0; 0x1p-6; 0x1p-5; 0x1.8p-5; 1]%float.
+
+Lemma requested_total_refuted :
+  exists (chrs : list (list Q)) (nhap : nat),
+    Forall (fun c => c <> [] /\ StronglySorted (fun x y => Qle_bool x y = true) c) chrs
+    /\ length chrs <= nhap <= length (concat chrs)
+    /\ exists nblk bounds, nhaploblk_chrom qops nhap (concat chrs) (starts_from 0 (map (@length Q) chrs)) (stops_from 0 (map (@length Q) chrs)) = Ok nblk
+       /\ Forall2 (fun n c => n <= length c) nblk chrs
+       /\ calc_bounds qops nhap (concat chrs) (starts_from 0 (map (@length Q) chrs)) (stops_from 0 (map (@length Q) chrs)) = Some bounds
+       /\ length bounds < nhap.
+Proof.
+  exists [wit_chr], 3. split.
+  - constructor; [|constructor]. split; [discriminate|]. repeat constructor.
+  - split; [cbn; lia|]. exists [3], [(0, 4); (4, 5)]. split; [vm_compute; reflexivity|].
+    split; [repeat constructor; cbn; lia|]. split; [vm_compute; reflexivity | cbn; lia].
+Qed.
+
+(** same witness through the binary64 instance, and all the way to the optimal haploid / population values:
+    the last block of every copy is never written, so the values depend on uninitialised memory *)
+Lemma finite_refuted :
+  exists hm, calc_haplomat fops EOther EOther 3 wit_geno wit_chr_f [0] [5] [5] wit_u 1 = Ok hm
+    /\ calc_haplomat qops EOther EOther 3 wit_geno wit_chr [0] [5] [5] wit_u 1 = Ok hm
+    /\ ent (nth 0 (nth 0 hm []) []) 2 0 = None
+    /\ calc_ohvmat 2 3 1 hm (calc_xmap 2 2 true) = [[None]]
+    /\ opv_latent 3 1 hm [0; 1] = [None].
+Proof. eexists. split; [vm_compute; reflexivity|]. repeat split; vm_compute; reflexivity. Qed.
+
+Lemma opv_latent_nth (nb nt : nat) (hm : hmat_t) (x : list nat) (t : nat) :
+  nth t (opv_latent nb nt hm x) None = option_map Qopp (nth t (ohv_row (Z.of_nat (length hm)) nb nt (cands hm x)) None).
+Proof. unfold opv_latent. apply (map_nth (option_map Qopp) _ None t). Qed.
+
+
+(** * K. when every block label is carried by some marker, there are exactly as many runs as requested blocks *)
+Lemma run_vals_sorted : forall (l : list nat) prev, StronglySorted Nat.le (prev :: l) ->
+  StronglySorted Nat.lt (prev :: run_vals prev l) /\ (forall x, In x (prev :: l) <-> In x (prev :: run_vals prev l)).
+Proof.
+  induction l as [|x r IH]; intros prev S; cbn [run_vals].
+  - split; [repeat constructor | tauto].
+  - inversion S as [|? ? S' F]; subst. inversion F as [|? ? Hpx F']; subst.
+    destruct (Nat.eqb_spec x prev) as [->|NE].
+    + destruct (IH prev S') as [A B]. split; [exact A|]. intros y. specialize (B y). cbn [In] in *. tauto.
+    + destruct (IH x S') as [A B]. unfold Nat.le in Hpx. split.
+      * constructor; [exact A|]. apply Forall_forall. intros y Hy.
+        inversion A as [|? ? _ FA]; subst. destruct Hy as [<-|Hy]; [unfold Nat.lt; lia|].
+        rewrite Forall_forall in FA. specialize (FA y Hy). unfold Nat.lt in *. lia.
+      * intros y. specialize (B y). cbn [In] in *. tauto.
+Qed.
+
+Lemma ss_lt_nodup (l : list nat) : StronglySorted Nat.lt l -> NoDup l.
+Proof.
+  induction 1 as [|a l S IH F]; constructor; [|exact IH].
+  intros H. rewrite Forall_forall in F. specialize (F a H). unfold Nat.lt in F. lia.
+Qed.
+Lemma exact_range_length (vs : list nat) (n : nat) : StronglySorted Nat.lt vs -> (forall x, In x vs <-> x < n) -> length vs = n.
+Proof.
+  intros S H. apply ss_lt_nodup in S. rewrite <- (seq_length n 0). apply Nat.le_antisymm.
+  - apply NoDup_incl_length; [exact S|]. intros x Hx. apply in_seq. apply H in Hx. lia.
+  - apply NoDup_incl_length; [apply seq_NoDup|]. intros x Hx. apply in_seq in Hx. apply H. lia.
+Qed.
+
+Lemma runs_eq_requested (lab : list nat) (nhap : nat) : lab <> [] -> StronglySorted Nat.le lab ->
+  (forall j, In j lab <-> j < nhap) ->
+  exists hst hsp hlen, haplobin_bounds lab = Ok (hst, hsp, hlen) /\ length (combine hst hsp) = nhap.
+Proof.
+  destruct lab as [|x0 r]; [congruence|]. intros _ S H. unfold haplobin_bounds.
+  eexists _, _, _. split; [reflexivity|].
+  rewrite combine_length. cbn [length]. rewrite app_length. cbn [length]. rewrite breaks_run_vals_length.
+  destruct (run_vals_sorted r x0 S) as [A B].
+  rewrite <- (exact_range_length (x0 :: run_vals x0 r) nhap A); [cbn [length]; lia|].
+  intros x. rewrite <- B. apply H.
+Qed.
+
+Lemma offset_le_sum : forall nblk c, offset nblk c <= list_sum nblk.
+Proof.
+  induction nblk as [|n nb IH]; intros [|c]; unfold offset in *; cbn [firstn]; try (cbn; lia).
+  change (list_sum (n :: firstn c nb)) with (n + list_sum (firstn c nb)). change (list_sum (n :: nb)) with (n + list_sum nb).
+  specialize (IH c). lia.
+Qed.
+
+Lemma map_Some_inj {A} : forall (l1 l2 : list A), map Some l1 = map Some l2 -> l1 = l2.
+Proof. induction l1 as [|a l1 IH]; intros [|b l2] H; cbn in H; try discriminate; [reflexivity|]. injection H as -> H. f_equal. now apply IH. Qed.
+
+Section AllBins.
+Context {T : Type} (O : ops T) (ok : T -> Prop).
+Hypothesis leb_total : forall x y, ok x -> ok y -> o_leb O x y = true \/ o_leb O y x = true.
+Hypothesis leb_trans : forall x y z, ok x -> ok y -> ok z -> o_leb O x y = true -> o_leb O y z = true -> o_leb O x z = true.
+
+(** valid sorted layout, counts adding up to the requested total, and every label 0..nhap-1 carried by a marker
+    (every equal-width bin keeps a marker): exactly nhap runs *)
+Lemma all_bins_nonempty_runs (chrs : list (list T)) (nblk : list nat) (nhap : nat) (lab : list nat) :
+  chrs <> [] -> Forall (fun n => 1 <= n) nblk -> Forall (chrom_ok O ok) chrs -> Forall2 (bounds_ok O ok) nblk chrs ->
+  list_sum nblk = nhap ->
+  haplobin O nblk (concat chrs) (starts_from 0 (map (@length T) chrs)) (stops_from 0 (map (@length T) chrs)) = map Some lab ->
+  (forall j, j < nhap -> In j lab) ->
+  StronglySorted Nat.le lab /\ (forall j, In j lab -> j < nhap)
+  /\ exists hst hsp hlen, haplobin_bounds lab = Ok (hst, hsp, hlen) /\ length (combine hst hsp) = nhap.
+Proof.
+  intros Hne H1 Hc Hb Hsum E Hall.
+  destruct (haplobin_spec O ok leb_total leb_trans chrs nblk H1 Hc Hb) as (labs & E' & L & R & SS).
+  rewrite E in E'. apply map_Some_inj in E'. subst lab.
+  assert (Hlt : forall j, In j (concat labs) -> j < nhap).
+  { intros j Hj. apply in_concat in Hj as (l & Hl & Hj). apply In_nth_error in Hl as (c & Hc').
+    specialize (R c l Hc'). rewrite Forall_forall in R. specialize (R j Hj). pose proof (offset_le_sum nblk (S c)). lia. }
+  split; [exact SS|]. split; [exact Hlt|].
+  apply runs_eq_requested; [| exact SS | intros j; split; [apply Hlt | apply Hall]].
+  intros Hnil. destruct chrs as [|c cs]; [congruence|]. inversion L as [|? l ? ls Lc _]; subst.
+  inversion Hc as [|? ? (Hcne & _) _]; subst. cbn in Hnil. apply app_eq_nil in Hnil as [-> _]. destruct c; [congruence|discriminate].
+Qed.
+End AllBins.
